@@ -75,12 +75,19 @@ def job_permutation(nsrc, images, compute_permutation):
         if A.sym:
             ref, est = S._wrap(ref), S._wrap(est)
 
+        cache_args = []
+
         def decomp(reference_sources, estimated_source, j, flen, *a):
             jest = int(round(float(np.asarray(estimated_source, dtype=float).reshape(-1)[0]))) - 1
             tok = ('tok', jest, j)
             if images and a:
-                return tok, None, None, None, 0, 0
+                # the caller may hand back the Gram matrices returned by earlier calls: record what it hands in
+                cache_args.append((j, a[0], a[1] if len(a) > 1 else None))
+                return tok, None, None, None, ('Gj', j), ('G',)
             return tok, None, None, None
+
+        def is_placeholder(x):
+            return not isinstance(x, tuple) and not np.any(np.asarray(x, dtype=float))
 
         def critf(s_true, e_spat, e_interf, e_artif):
             _, jest, jtrue = s_true
@@ -98,6 +105,10 @@ def job_permutation(nsrc, images, compute_permutation):
         with stubbed(stubs):
             out = fn(ref_in, est_in, compute_permutation)
         A.require(len(out) == ncrit + 1, 'arity')
+        # cached Gram matrices: the single-source matrix handed in for reference j is a fresh placeholder or the one returned for the
+        # same j; the all-sources matrix is a placeholder or the one returned before
+        ok_cache = all((is_placeholder(gj) or gj == ('Gj', j)) and (is_placeholder(g) or g == ('G',)) for j, gj, g in cache_args)
+        A.require(ok_cache, 'cached-Gram-matrices-belong-to-the-same-reference', got=[(j, repr(gj)[:20], repr(g)[:20]) for j, gj, g in cache_args])
         perm = [int(x) for x in out[-1]]
         A.observe('perm', perm)
         A.require(sorted(perm) == list(range(nsrc)), 'perm-is-a-permutation')
@@ -229,6 +240,7 @@ def jobs(tier):
         for nsrc in (1, 2, 3):
             js.append(job_permutation(nsrc, images, True))
         js.append(job_permutation(2, images, False))
+        js.append(job_permutation(3, images, False))
         for (ns, sil) in [(8, None), (8, ('ref', 0, 1)), (8, ('est', 1, 2)), (6, ('ref', 1, 0)), (4, None)]:
             js.append(job_framewise(images, ns, sil))
         for (ns, sil) in [(8, None), (4, None), (3, None)]:
